@@ -94,7 +94,7 @@ Proof.
   - unfold do_rlost. destruct (nth_error _ _); [|cbn; now rewrite app_nil_r]. destruct (negb _); cbn; now rewrite app_nil_r.
   - unfold do_win. destruct (_ >? _); cbn; now rewrite app_nil_r.
   - unfold do_cwin. destruct (_ >? _); cbn; now rewrite app_nil_r.
-  - cbn. now rewrite app_nil_r.
+  - unfold do_rel. destruct (isSome _); cbn; now rewrite app_nil_r.
   - cbn. now rewrite app_nil_r.
   - unfold do_shutdown. destruct (_ && _); cbn; now rewrite app_nil_r.
 Qed.
